@@ -230,7 +230,7 @@ def _run_stream(case, descs, flows, sa, tctx, path, ctx):
         return None
     tail = [fg.listify(g.get_state()) for g in got[len(expected):]]
     want = [fg.listify(flows[i].get_state()) for i in range(n) if len(_events_left(case, descs, i)) == 1]
-    if [fg.listify(g.get_state()) for g in got[:len(expected)]] != expected or sorted(map(repr, tail)) != sorted(map(repr, want)):
+    if [fg.listify(g.get_state()) for g in got[:len(expected)]] != expected or sorted(map(fg.canon_repr, tail)) != sorted(map(fg.canon_repr, want)):
         ctx.fail("stream-file-wrong-after-stop", "%d records after stop, expected %d completed + %d open" % (len(got), len(expected), len(want)))
         return None
     ctx.cls("stream:open-at-stop", len(want))
